@@ -439,6 +439,71 @@ def m_int_op_trait(ex, st, callee, args, dty, m):
     return ("__fork__", [(z3.Not(ov), val), (ov, PathEnd("panic", what))])
 
 
+# ---------------------------------------------------------------- Vec / VecDeque retain over a tracked sequence
+@model(r"(?:VecDeque|Vec)::<.*>::retain::<.*>$")
+def m_seq_retain(ex, st, callee, args, dty, m):
+    sref = args[0]
+    seq = deref(ex, sref)
+    if not isinstance(seq, Seq):
+        return NotImplemented
+    closure = args[1]
+    cbody = ex.closure_body(closure)
+    if cbody is None:
+        return NotImplemented
+    c, p = sref.cell, sref.path
+    vv = ex.get_path(c, p)
+    while isinstance(vv, Ref):
+        c, p = vv.cell, vv.path
+        vv = ex.get_path(c, p)
+    n = len(seq.items)
+    _DRIVER_COUNT[0] += 1
+    k = _DRIVER_COUNT[0]
+    b = _MIR.Body("__retain_%d" % k, "synthetic")
+    b.args = [("_1", "env"), ("_S", "seq")] + [("_%d" % (i + 2), "item") for i in range(n)]
+    b.locals = dict(b.args)
+    b.locals["_0"] = "()"
+    b.locals["_G"] = "bool"
+    b.locals["_D"] = "u64"
+    tok_call, tok_zero, tok_or, tok_done = "__closure_call__%d" % k, "__retain_zero__%d" % k, "__retain_drop__%d" % k, "__retain_done__%d" % k
+
+    def zero(ex_, st_, callee_, a, dt, mm):
+        return u64(0)
+
+    def drop(ex_, st_, callee_, a, dt, mm):
+        return u64(as_int(a[0]) | (1 << as_int(a[1])))
+
+    def done(ex_, st_, callee_, a, dt, mm):
+        s_ = deref(ex_, a[0])
+        mask = as_int(a[1])
+        s_.items = [it for i, it in enumerate(s_.items) if not (mask >> i) & 1]
+        return UNIT
+    ex.models = [(re.compile(re.escape(tok_call) + "$"), lambda ex_, st_, callee_, a, dt, mm, cb=cbody: ("__inline__", cb, a)),
+                 (re.compile(re.escape(tok_zero) + "$"), zero), (re.compile(re.escape(tok_or) + "$"), drop), (re.compile(re.escape(tok_done) + "$"), done)] + list(ex.models)
+
+    def blk(name):
+        bb = _MIR.Block(name, False)
+        b.blocks[name] = bb
+        return bb
+    blk("bb0").term = ("call", ("local", "_D"), tok_zero, [], {"return": "bb1"})
+    for i in range(n):
+        bb = blk("bb%d" % (3 * i + 1))
+        bb.term = ("call", ("local", "_G"), tok_call, [("copy", ("local", "_1")), ("copy", ("local", "_%d" % (i + 2)))], {"return": "bb%d" % (3 * i + 2)})
+        sw = blk("bb%d" % (3 * i + 2))
+        sw.term = ("switch", ("copy", ("local", "_G")), [("0", "bb%d" % (3 * i + 3)), ("otherwise", "bb%d" % (3 * i + 4))])
+        dr = blk("bb%d" % (3 * i + 3))
+        dr.term = ("call", ("local", "_D"), tok_or, [("copy", ("local", "_D")), ("const", "%d_usize" % i)], {"return": "bb%d" % (3 * i + 4)})
+    blk("bb%d" % (3 * n + 1)).term = ("call", ("local", "_0"), tok_done, [("copy", ("local", "_S")), ("copy", ("local", "_D"))], {"return": "bbR"})
+    blk("bbR").term = ("return",)
+    by_ref = cbody.args[0][1].lstrip().startswith("&")
+    env = closure
+    if by_ref and not isinstance(closure, Ref):
+        env = Ref(Cell(closure), (), True)
+    if not by_ref and isinstance(closure, Ref):
+        env = deref(ex, closure)
+    items = [Ref(c, p + (("i", u64(i)),), False) for i in range(n)]
+    return ("__inline__", b, [env, Ref(c, p, True)] + items)
+
+
 # ---------------------------------------------------------------- Ordering::then / then_with
 @model(r"(?:std|core)::cmp::Ordering::then$")
 def m_ordering_then(ex, st, callee, args, dty, m):
@@ -681,6 +746,30 @@ def m_vec_remove(ex, st, callee, args, dty, m):
         return v.items.pop(k)
     alts = [(idx.bv == k, ("__thunk__", take, (r, k))) for k in range(n)]
     alts.append((z3.UGE(idx.bv, n), PathEnd("panic", "Vec::remove index out of bounds (len %d)" % n)))
+    return ("__fork__", alts)
+
+
+@model(r"VecDeque::<(.*)>::remove$")
+def m_deque_remove(ex, st, callee, args, dty, m):
+    # VecDeque::remove answers Option<T>: None when the index is out of bounds (no panic)
+    r, idx = args
+    v = deref(ex, r)
+    if not isinstance(v, Seq) or not isinstance(idx, I):
+        return NotImplemented
+    i = z3.simplify(idx.bv)
+    n = len(v.items)
+
+    def take(ex_, st_, arg):
+        ref, k = arg
+        seq = deref(ex_, ref)
+        return mk_some(dty, seq.items.pop(k))
+    if z3.is_bv_value(i):
+        k = i.as_long()
+        if k >= n:
+            return mk_none(dty)
+        return mk_some(dty, v.items.pop(k))
+    alts = [(idx.bv == k, ("__thunk__", take, (r, k))) for k in range(n)]
+    alts.append((z3.UGE(idx.bv, n), mk_none(dty)))
     return ("__fork__", alts)
 
 
